@@ -129,6 +129,25 @@ CHECKS = {
         "Frequencies exactly on a non-dyadic threshold are DONT_CARE; features dropped because nothing reaches min_freq are outside the statement.",
         "DESIGN.md §3 C18",
     ),
+    "C17": (
+        "E2-bfs",
+        "explicit-state BFS over update_discretizer histories on live fitted objects; partition oracle + C04/C16/C06 oracles per state",
+        "From ~25 fitted base objects (Binary/ContinuousCarver, Discretizer; quantitative, ordinal, categorical, numeric categories; "
+        "with/without missing values; output_dtype x dropna) every sequence of valid edits up to depth 2 (quick) / 3 (thorough) is applied; "
+        "after each edit the row partition of transform(X) must be the previous one with exactly the discarded and kept groups merged "
+        "(unchanged for 'replace'), and RefTransform, the summary oracle and the JSON round trip must agree with transform in the new state.",
+        "Valid edits for quantitative features merge an interval into its upper neighbour; successor objects come from a pickle whose fidelity is asserted.",
+        "DESIGN.md §3 C17",
+    ),
+    "C19": (
+        "E2-bfs",
+        "exhaustive fault enumeration: fault class x injection position x class x history (fresh / fitted), state-equality oracle",
+        "Every malformed input class of the statement is injected (value-level faults at every row position in thorough) into a valid 12-row "
+        "frame for the three carvers, Discretizer, Qualitative- and QuantitativeDiscretizer, on a fresh and on an already fitted object; "
+        "the call must raise AssertionError and the fitted object's canonical state, JSON export and transform(X) must be identical before/after.",
+        "One valid base frame in 3 encodings; constructor-level faults only for the carvers (where the statement's mechanism lives).",
+        "DESIGN.md §3 C19",
+    ),
 }
 
 NOT_BUILT = "check not built yet (work in progress, see DESIGN.md §7 for the order)"
